@@ -97,7 +97,7 @@ theorem slicesBound_of_ok [DecidableEq D] (H : HashFns D) (h : Lumina.Model.Nmt.
           | none => simp [hr] at hl
           | some root =>
             simp only [hr] at hl
-            cases hv : Lumina.Model.Nmt.verifyRange h np root (data.take (np.end_ - np.start)) ns with
+            cases hv : Lumina.Model.Decoders.safeVerifyRange h np root (data.take (np.end_ - np.start)) ns with
             | error e =>
               rw [hv] at hl
               cases e <;> simp at hl
@@ -116,7 +116,12 @@ theorem slicesBound_of_ok [DecidableEq D] (H : HashFns D) (h : Lumina.Model.Nmt.
               refine ⟨?_, ?_⟩
               · by_cases hw : np.end_ ≤ w
                 · right
-                  exact hn mp.index r root np _ ns hidx hr hv hw
+                  have hv' : Lumina.Model.Nmt.verifyRange h np root (data.take (np.end_ - np.start)) ns = .ok () := by
+                    unfold Lumina.Model.Decoders.safeVerifyRange at hv
+                    split at hv
+                    · cases hv
+                    · cases u; exact hv
+                  exact hn mp.index r root np _ ns hidx hr hv' hw
                 · left; exact hw
               · exact ih rs mps _ hl hb2 (fun p hp => ht p (by simp [hp])) (by simpa using h1) (by simpa using h2)
 
